@@ -361,6 +361,52 @@ def setItem {α} (l : List α) (i : Int) (v : α) : Outcome (List α) :=
   if j < 0 then .escape .indexError
   else if j.toNat < l.length then .ok (l.set j.toNat v) else .escape .indexError
 
+/-- `int(d)` for a Decimal: truncation toward zero; NaN is ValueError, Infinity OverflowError -/
+def decToInt (d : Dec) : Outcome Int :=
+  match d.exp with
+  | .fin e =>
+    let n := Cardutil.Digits.fromDigits 10 d.digits
+    let v : Nat := if 0 ≤ e then n * 10 ^ e.toNat else n / 10 ^ (-e).toNat
+    .ok (if d.neg then -(v : Int) else (v : Int))
+  | .inf => .escape .overflowError
+  | _ => .escape .valueError
+
+/-- `int(v)` for a value of any type: text and ints as usual, a Decimal truncated, bytes read as ASCII text, a datetime
+    is a TypeError -/
+def anyInt (k : IntClasses) : AnyVal → Outcome Int
+  | .str t => intOfStr k t
+  | .int i => .ok i
+  | .dec d => decToInt d
+  | .bytes b => if b.all (· < 128) then intOfStr k b else .escape .valueError
+  | .dt _ => .escape .typeError
+
+/-- `decimal.Decimal(v)` for a value of any type: text, int, Decimal; bytes and datetime are a TypeError -/
+def anyDecimal (k : IntClasses) : AnyVal → Outcome Dec
+  | .str t => decimalOfStr k t
+  | .int i => .ok (decOfInt i)
+  | .dec d => .ok d
+  | _ => .escape .typeError
+
+/-- `format(i, '0' + str(w) + 'd')`: a negative width gives no valid specification (ValueError) -/
+def fmtIntSpec (w : Int) (i : Int) : Outcome Text :=
+  if w < 0 then .escape .valueError else .ok (fmtInt w.toNat i)
+
+/-- `format(d, '0' + str(w or '') + 'f')`: the width is left out when `w` is 0 -/
+def fmtDecSpec (w : Int) (d : Dec) : Outcome Text :=
+  if w < 0 then .escape .valueError
+  else match fmtDecF w.toNat d with
+    | some t => .ok t
+    | none => .escape .valueError
+
+/-- `format(dt, fmt)` = `dt.strftime(fmt)` for a format made of the modelled numeric directives and literal characters.
+    NOT rendered (reported as an exception of kind `other`, which no caller expects): an empty format (Python then gives
+    `str(dt)`) and directives outside the modelled ones — both outside the properties' domains. -/
+def formatDt (d : DateTime) (fmt : Text) : Outcome Text :=
+  if fmt.isEmpty then .escape .other
+  else match parseFormat fmt with
+    | some ds => .ok (strftime ds d)
+    | none => .escape .other
+
 /-- `range(a, b)` -/
 def range (a b : Int) : List Int := (List.range (b - a).toNat).map (fun (i : Nat) => a + (i : Int))
 
